@@ -26,9 +26,9 @@ theorem fsum_eq_sum {n : ℕ} (f : Fin n → K) : fsum f = ∑ i, f i := by
     rw [Fin.foldl_succ_last, Fin.sum_univ_castSucc, ← ih]
 
 omit [Field K] in
-theorem Mx.memo_eq {n m : ℕ} (a : Mx K n m) : Mx.memo a = a := by
+@[simp] theorem tab_mx {n m : ℕ} (a : Mx K n m) : (Mx.tab a).mx = a := by
   funext i j
-  simp [Mx.memo]
+  simp [Mx.tab, Tab.mx]
 
 theorem Mx.mul_eq {n k m : ℕ} (a : Mx K n k) (b : Mx K k m) : Mx.mul a b = toM a * toM b := by
   funext i j
@@ -56,8 +56,9 @@ theorem vstack_mul {a b k m : ℕ} (x : Mx K a k) (y : Mx K b k) (z : Mx K k m) 
 
 /-- `solve` returns a solution of `A X = B` whenever `A` is invertible (what `scipy.linalg.solve` is
 for; the `Float` kernel's agreement with it is measured by the correspondence) -/
-def ExactSolve (solve : {n k : ℕ} → Mx K n n → Mx K n k → Mx K n k) : Prop :=
-  ∀ {n k : ℕ} (A : Mx K n n) (B : Mx K n k), IsUnit (toM A).det → toM A * toM (solve A B) = toM B
+def ExactSolve (solve : Solver K) : Prop :=
+  ∀ {n k : ℕ} (A : Tab K n n) (B : Tab K n k), IsUnit (toM A.mx).det →
+    toM A.mx * toM (solve A B).mx = toM B.mx
 
 theorem left_cancel_of_isUnit {n m : ℕ} {A : Matrix (Fin n) (Fin n) K} (hA : IsUnit A.det)
     {X Y : Matrix (Fin n) (Fin m) K} (h : A * X = A * Y) : X = Y := by
@@ -65,11 +66,13 @@ theorem left_cancel_of_isUnit {n m : ℕ} {A : Matrix (Fin n) (Fin n) K} (hA : I
   simpa [← Matrix.mul_assoc, Matrix.nonsing_inv_mul A hA] using this
 
 /-- the exact solver with `A⁻¹` (shows `ExactSolve` is inhabited) -/
-noncomputable def invSolve {n k : ℕ} (A : Mx K n n) (B : Mx K n k) : Mx K n k := (toM A)⁻¹ * toM B
+noncomputable def invSolve {n k : ℕ} (A : Tab K n n) (B : Tab K n k) : Tab K n k :=
+  Mx.tab fun i j => ((toM A.mx)⁻¹ * toM B.mx) i j
 
 theorem invSolve_exact : ExactSolve (K := K) invSolve := by
   intro n k A B hA
-  simp only [invSolve]
+  simp only [invSolve, tab_mx]
+  show toM A.mx * ((toM A.mx)⁻¹ * toM B.mx) = toM B.mx
   rw [← Matrix.mul_assoc, Matrix.mul_nonsing_inv _ hA, Matrix.one_mul]
 
 /-- the columns `im`, `inn` are a partition of the independent DOF -/
@@ -98,21 +101,20 @@ theorem selRows_mul {n k m r : ℕ} (a : Mx K n k) (b : Mx K k m) (f : Fin r →
 /-! ### the least-squares step -/
 
 /-- `rbe3 · rb = T[dd]` as soon as the normal matrix `rbᵀ W rb` is invertible -/
-theorem rbe3Alg_mul_rb {m nd : ℕ} (solve : {n k : ℕ} → Mx K n n → Mx K n k → Mx K n k)
+theorem rbe3Alg_mul_rb {m nd : ℕ} (solve : Solver K)
     (hs : ExactSolve solve) (rb : Mx K m 6) (w : Fin m → K) (T : Mx K 6 6) (dd : Fin nd → Fin 6)
     (hA : IsUnit (toM (fun j i => rb i j * w i : Mx K 6 m) * toM rb).det) :
-    toM (rbe3Alg solve rb w T dd) * toM rb = toM (T.selRows dd) := by
-  have hA' : IsUnit (toM (Mx.mul (fun j i => rb i j * w i : Mx K 6 m) rb)).det := by
-    rw [Mx.mul_eq]; exact hA
-  have hX := hs (Mx.mul (fun j i => rb i j * w i : Mx K 6 m) rb) (fun j i => rb i j * w i) hA'
-  have hXrb : toM (solve (Mx.mul (fun j i => rb i j * w i : Mx K 6 m) rb) (fun j i => rb i j * w i))
-      * toM rb = 1 := by
+    toM (rbe3Alg solve rb w T dd).mx * toM rb = toM (T.selRows dd) := by
+  set rbw : Mx K 6 m := fun j i => rb i j * w i with hrbw
+  have hA' : IsUnit (toM (Mx.tab (Mx.mul rbw rb)).mx).det := by rw [tab_mx, Mx.mul_eq]; exact hA
+  have hX := hs (Mx.tab (Mx.mul rbw rb)) (Mx.tab rbw) hA'
+  simp only [tab_mx] at hX hA'
+  have hXrb : toM (solve (Mx.tab (Mx.mul rbw rb)) (Mx.tab rbw)).mx * toM rb = 1 := by
     apply left_cancel_of_isUnit hA'
     rw [← Matrix.mul_assoc, hX, Matrix.mul_one, Mx.mul_eq]
-  have hdef : rbe3Alg solve rb w T dd
-      = Mx.selRows (Mx.mul T (solve (Mx.mul (fun j i => rb i j * w i : Mx K 6 m) rb)
-          (fun j i => rb i j * w i))) dd := by
-    simp only [rbe3Alg, Mx.memo_eq]
+  have hdef : (rbe3Alg solve rb w T dd).mx
+      = Mx.selRows (Mx.mul T (solve (Mx.tab (Mx.mul rbw rb)) (Mx.tab rbw)).mx) dd := by
+    simp only [rbe3Alg, tab_mx, hrbw]
   rw [hdef, selRows_mul, Mx.mul_eq, Matrix.mul_assoc, hXrb, Matrix.mul_one]
 
 /-! ### `UM_List` -/
@@ -120,16 +122,16 @@ theorem rbe3Alg_mul_rb {m nd : ℕ} (solve : {n k : ℕ} → Mx K n n → Mx K n
 /-- m-set inside the independent set: the new matrix gives the m-set motion from the motion of the
 dependent DOF and of the remaining independent DOF, whenever the old one gives the dependent motion
 from the independent motion -/
-theorem umIndep_spec {nd ni q s : ℕ} (solve : {n k : ℕ} → Mx K n n → Mx K n k → Mx K n k)
+theorem umIndep_spec {nd ni q s : ℕ} (solve : Solver K)
     (hs : ExactSolve solve) (R : Mx K nd ni) (im : Fin nd → Fin ni) (inn : Fin q → Fin ni)
     (hp : IsPartition im inn) (hRm : IsUnit (toM (R.selCols im)).det)
     (Zi : Mx K ni s) (Zd : Mx K nd s) (h : toM R * toM Zi = toM Zd) :
-    toM (umIndep solve R im inn) * toM (Mx.vstack Zd (Zi.selRows inn)) = toM (Zi.selRows im) := by
+    toM (umIndep solve R im inn).mx * toM (Mx.vstack Zd (Zi.selRows inn)) = toM (Zi.selRows im) := by
   apply left_cancel_of_isUnit hRm
-  have hdef : umIndep solve R im inn
-      = solve (R.selCols im) (Mx.hstack Mx.ident (Mx.neg (R.selCols inn))) := by
-    simp only [umIndep, Mx.memo_eq]
-  rw [hdef, ← Matrix.mul_assoc, hs _ _ hRm, hstack_mul_vstack, Mx.ident_eq, Mx.neg_eq]
+  have hRm' : IsUnit (toM (Mx.tab (R.selCols im)).mx).det := by rw [tab_mx]; exact hRm
+  have hX := hs (Mx.tab (R.selCols im)) (Mx.tab (Mx.hstack Mx.ident (Mx.neg (R.selCols inn)))) hRm'
+  simp only [tab_mx] at hX
+  rw [umIndep, ← Matrix.mul_assoc, hX, hstack_mul_vstack, Mx.ident_eq, Mx.neg_eq]
   rw [hp.mul_split R Zi] at h
   rw [← h]
   rw [Matrix.one_mul, Matrix.neg_mul]
@@ -137,16 +139,21 @@ theorem umIndep_spec {nd ni q s : ℕ} (solve : {n k : ℕ} → Mx K n n → Mx 
 
 /-- mixed m-set: rows `dm` of the dependent DOF and columns `im` of the independent DOF become
 dependent; `C = R[dn, im]` must be invertible -/
-theorem umMixed_spec {nd ni r c q s : ℕ} (solve : {n k : ℕ} → Mx K n n → Mx K n k → Mx K n k)
+theorem umMixed_spec {nd ni r c q s : ℕ} (solve : Solver K)
     (hs : ExactSolve solve) (R : Mx K nd ni) (dm : Fin r → Fin nd) (dn : Fin c → Fin nd)
     (im : Fin c → Fin ni) (inn : Fin q → Fin ni) (hp : IsPartition im inn)
     (hC : IsUnit (toM ((R.selRows dn).selCols im)).det)
     (Zi : Mx K ni s) (Zd : Mx K nd s) (h : toM R * toM Zi = toM Zd) :
-    toM (umMixed solve R dm dn im inn) * toM (Mx.vstack (Zd.selRows dn) (Zi.selRows inn))
+    toM (umMixed solve R dm dn im inn).mx * toM (Mx.vstack (Zd.selRows dn) (Zi.selRows inn))
       = toM (Mx.vstack (Zd.selRows dm) (Zi.selRows im)) := by
   set Z : Mx K (c + q) s := Mx.vstack (Zd.selRows dn) (Zi.selRows inn) with hZ
-  set E := solve ((R.selRows dn).selCols im)
-    (Mx.hstack Mx.ident (Mx.neg ((R.selRows dn).selCols inn))) with hE
+  set E := (solve (Mx.tab ((R.selRows dn).selCols im))
+    (Mx.tab (Mx.hstack Mx.ident (Mx.neg ((R.selRows dn).selCols inn))))).mx with hE
+  have hC' : IsUnit (toM (Mx.tab ((R.selRows dn).selCols im)).mx).det := by rw [tab_mx]; exact hC
+  have hX := hs (Mx.tab ((R.selRows dn).selCols im))
+    (Mx.tab (Mx.hstack Mx.ident (Mx.neg ((R.selRows dn).selCols inn)))) hC'
+  simp only [tab_mx] at hX
+  rw [← hE] at hX
   -- rows of the hypothesis
   have hrow : ∀ {t : ℕ} (f : Fin t → Fin nd), toM (Zd.selRows f)
       = toM ((R.selRows f).selCols im) * toM (Zi.selRows im)
@@ -158,7 +165,7 @@ theorem umMixed_spec {nd ni r c q s : ℕ} (solve : {n k : ℕ} → Mx K n n →
   -- E Z = Zi[im]
   have hEZ : toM E * toM Z = toM (Zi.selRows im) := by
     apply left_cancel_of_isUnit hC
-    rw [← Matrix.mul_assoc, hE, hs _ _ hC, hZ, hstack_mul_vstack, Mx.ident_eq, Mx.neg_eq, hrow dn]
+    rw [← Matrix.mul_assoc, hX, hZ, hstack_mul_vstack, Mx.ident_eq, Mx.neg_eq, hrow dn]
     rw [Matrix.one_mul, Matrix.neg_mul]
     abel
   have hFZ : (toM ((R.selRows dm).selCols im) * toM E
@@ -166,10 +173,10 @@ theorem umMixed_spec {nd ni r c q s : ℕ} (solve : {n k : ℕ} → Mx K n n →
       = toM (Zd.selRows dm) := by
     rw [Matrix.add_mul, Matrix.mul_assoc, hEZ, hZ, hstack_mul_vstack, Mx.zero_eq, hrow dm]
     rw [Matrix.zero_mul, zero_add]
-  have hY : umMixed solve R dm dn im inn
+  have hY : (umMixed solve R dm dn im inn).mx
       = Mx.vstack (Mx.add (Mx.mul ((R.selRows dm).selCols im) E)
           (Mx.hstack (Mx.zero : Mx K r c) ((R.selRows dm).selCols inn))) E := by
-    simp only [umMixed, Mx.memo_eq, hE]
+    simp only [umMixed, tab_mx, hE]
   rw [hY, vstack_mul, Mx.add_eq, Mx.mul_eq, hFZ, hEZ]
 
 end field
@@ -243,19 +250,18 @@ theorem effWt_pos (Lc : ℝ) (dof : Fin 6) {w : ℝ} (hw : 0 < w) : 0 < effWt Lc
   · exact hw
 
 /-- `formrbe3` reproduces the rigid-body modes relative to any reference point -/
-theorem rbe3Grid_mul_indRows {m nd : ℕ} (solve : {n k : ℕ} → Mx ℝ n n → Mx ℝ n k → Mx ℝ n k)
+theorem rbe3Grid_mul_indRows {m nd : ℕ} (solve : Solver ℝ)
     (hs : ExactSolve solve) (grids : List (GridR ℝ)) (dep : GridR ℝ) (dd : Fin nd → Fin 6)
     (ind : Fin m → IndDof ℝ) (hw : ∀ k, 0 < (ind k).w)
     (hrank : Function.Injective (toM (indRows ind dep.p)).mulVec) (ref : V3 ℝ) :
-    toM (rbe3Grid solve grids dep dd ind) * toM (indRows ind ref)
+    toM (rbe3Grid solve grids dep dd ind).mx * toM (indRows ind ref)
       = toM ((gridRowsMx dep ref).selRows dd) := by
   have hA := normal_isUnit (toM (indRows ind dep.p))
     (fun k => effWt (charLen grids dep) (ind k).dof (ind k).w) (fun k => effWt_pos _ _ (hw k)) hrank
   have h0 := rbe3Alg_mul_rb solve hs (indRows ind dep.p)
     (fun k => effWt (charLen grids dep) (ind k).dof (ind k).w) (gridRowsMx dep dep.p) dd hA
   have hdef : rbe3Grid solve grids dep dd ind = rbe3Alg solve (indRows ind dep.p)
-      (fun k => effWt (charLen grids dep) (ind k).dof (ind k).w) (gridRowsMx dep dep.p) dd := by
-    simp only [rbe3Grid, Mx.memo_eq]
+      (fun k => effWt (charLen grids dep) (ind k).dof (ind k).w) (gridRowsMx dep dep.p) dd := rfl
   rw [hdef, indRows_move ind dep.p ref, ← Matrix.mul_assoc, h0, selRows_mul, ← gridRowsMx_move]
 
 /-! ### a full-rank instance -/
